@@ -17,9 +17,9 @@ func init() {
 			"(R1) format tables agree: the serialization formats validated, dumped and loaded are the same set, likewise the compression formats; FormatToMimeType and MimeTypeToFormat are mutually inverse; " +
 			"(R2) every format identifier written (varint.Pack8) is the resolved format (first result of Validate*Format), never the raw AUTO-able parameter, and the data is serialized with that same resolved format; " +
 			"(R3) the mime type announced follows the format used: MimeDump returns FormatToMimeType[format], DumpToHTTPResponse sets Content-Type unconditionally before writing, DumpToHTTPRequest announces the format it serializes with; " +
-			"(R4) loaders slice their input only at the decoder's count on its success edge and reject an empty payload; (R5) dump functions do not return bytes that alias recycled (pooled) storage. " +
+			"(R4) loaders slice their input only at the decoder's count on its success edge and reject an empty payload; (R5) dump functions do not return bytes that alias recycled (pooled) storage; (R6) every constant-bound index/slice of a byte slice or string in the repo functions statically reachable from the loaders (incl. the error-message helpers) is dominated by a length test implying the bound. " +
 			"NOT decided: value equality through the third-party codecs (JSON/CBOR/MsgPack/YAML), compression correctness.",
-		Rules: []ruleFn{c09R1, c09R2, c09R3, c09R4, c09R5},
+		Rules: []ruleFn{c09R1, c09R2, c09R3, c09R4, c09R5, c09R6},
 	})
 }
 
@@ -454,4 +454,12 @@ func c09R5(c *Ctx, r *Report) {
 	if n == 0 {
 		r.Trivial(rule, "formats/dsd / buffer pooling", "no buffer recycling in package dsd: returned bytes are freshly allocated")
 	}
+}
+
+func c09R6(c *Ctx, r *Report) {
+	const rule = "C09-R6"
+	r.SetFloor(rule, 1)
+	boundsRule(c, r, rule, "load of an arbitrary byte string",
+		"formats/dsd.Load", "formats/dsd.LoadAsFormat", "formats/dsd.DecompressAndLoad", "formats/dsd.loadFormat",
+		"formats/dsd.LoadFromHTTPRequest", "formats/dsd.LoadFromHTTPResponse", "formats/dsd.MimeLoad")
 }
